@@ -125,12 +125,26 @@ def progress_probe(cmd, cwd, env, seconds=24):
     import subprocess, time, signal
     p = subprocess.Popen(cmd, cwd=cwd, env=env, stdout=subprocess.DEVNULL, stderr=subprocess.DEVNULL,
                          start_new_session=True)
-    rss, cpu = [], []
+    rss, cpu, counters = [], [], []
+
+    def flex_counters():
+        # flex's own progress counters (states of the automata built so far), read with gdb
+        try:
+            r = subprocess.run(["gdb", "-p", str(p.pid), "-batch", "-ex", "p lastdfa", "-ex", "p lastnfa",
+                                "-ex", "p num_rules"], capture_output=True, text=True, timeout=20)
+            v = tuple(int(x) for x in re.findall(r"^\$\d+ = (-?\d+)", r.stdout, re.M))
+            return v if len(v) == 3 else None
+        except (OSError, subprocess.SubprocessError, ValueError):
+            return None
     try:
-        for _ in range(seconds // 2):
+        for n_ in range(seconds // 2):
             time.sleep(2)
             if p.poll() is not None:
                 return "finished"
+            if n_ in (1, seconds // 2 - 1):
+                c_ = flex_counters()
+                if c_ is not None:
+                    counters.append(c_)
             try:
                 st = open("/proc/%d/stat" % p.pid).read().rsplit(")", 1)[1].split()
                 cpu.append(int(st[11]) + int(st[12]))           # utime + stime (clock ticks)
@@ -149,6 +163,8 @@ def progress_probe(cmd, cwd, env, seconds=24):
         return "finished"
     if cpu[-1] - cpu[0] < 100 * (len(cpu) - 1):        # under half of the wall time on the CPU
         return "blocked: no CPU time used while waiting"
+    if len(counters) == 2 and counters[1] != counters[0] and all(b >= a for a, b in zip(*counters)):
+        return "growing"        # more automaton states than 20 seconds earlier
     if rss and rss[-1] > rss[len(rss) // 2] * 1.01 and rss[-1] > rss[0] * 1.02:
         return "growing"
     return "spinning: CPU-bound with constant memory"
